@@ -111,3 +111,254 @@ def illtyped_aggregates():
         out.append("struct S\n{\n\tm: %s,\n}\nfn main()\n{\n\tvar s = S { m: %s };\n}\n" % (ta, lit(b)))
         out.append("const K: %s = %s;\nfn main()\n{\n}\n" % (ta, lit(b)))
     return out
+
+
+# ---- access paths: nested arrays, structures with array members, arrays of structures, reached directly and through
+# ---- every kind of parameter; writes, reads and lengths against a Python oracle (prints one number) ----
+
+def access_program(rng):
+    """returns (source, expected stdout, tags).  A root value of a random shape is filled with literals, changed by 3-7
+    writes at random paths (directly, or through a setter that gets the root, an inner array or an inner structure by
+    pointer), and then summed leaf by leaf with position weights (directly or through getters that take pointers, views or
+    slice pointers); lengths of inner arrays are added too."""
+    T = rng.pick(["u8", "i32", "u16", "usize", "i64"])
+    U = rng.pick(["i32", "u8", "u32"])
+    n = 2 + rng.below(3)
+    r_, c_ = 2 + rng.below(2), 2 + rng.below(3)
+    shape = rng.pick(["A1", "A2", "S1", "AS", "SS"])
+    tags = [shape, T]
+
+    def lit(t, v):
+        return "%d%s" % (v, t)
+
+    def val():
+        return 1 + rng.below(9)
+    decls = []
+    decls.append("struct S\n{\n\tarr: [%d]%s,\n\tvalue: %s,\n}" % (n, T, U))
+    decls.append("struct O\n{\n\tinner: S,\n\titems: [2]S,\n\ttail: %s,\n}" % T)
+    # helper functions (a menu; only some are called)
+    fns = """
+fn set_elem(x: &[%(n)d]%(T)s, i: usize, v: %(T)s)
+{
+	x[i] = v;
+}
+fn get_elem(x: &[%(n)d]%(T)s, i: usize) -> %(T)s
+{
+	return: x[i]
+}
+fn get_elem_view(x: []%(T)s, i: usize) -> %(T)s
+{
+	return: x[i]
+}
+fn get_elem_sp(x: &[]%(T)s, i: usize) -> %(T)s
+{
+	return: x[i]
+}
+fn set_elem_sp(x: &[]%(T)s, i: usize, v: %(T)s)
+{
+	x[i] = v;
+}
+fn set_cell(g: &[%(r)d][%(c)d]%(T)s, i: usize, j: usize, v: %(T)s)
+{
+	g[i][j] = v;
+}
+fn get_cell(g: &[%(r)d][%(c)d]%(T)s, i: usize, j: usize) -> %(T)s
+{
+	return: g[i][j]
+}
+fn row_len(g: &[%(r)d][%(c)d]%(T)s, i: usize) -> usize
+{
+	return: |g[i]|
+}
+fn rows(g: &[%(r)d][%(c)d]%(T)s) -> usize
+{
+	return: |g|
+}
+fn set_s_arr(s: &S, i: usize, v: %(T)s)
+{
+	s.arr[i] = v;
+}
+fn get_s_arr(s: &S, i: usize) -> %(T)s
+{
+	return: s.arr[i]
+}
+fn get_s_arr_view(s: S, i: usize) -> %(T)s
+{
+	return: s.arr[i]
+}
+fn set_s_value(s: &S, v: %(U)s)
+{
+	s.value = v;
+}
+fn get_s_value(s: S) -> %(U)s
+{
+	return: s.value
+}
+fn s_arr_len(s: &S) -> usize
+{
+	return: |s.arr|
+}
+fn set_as(xs: &[]S, k: usize, i: usize, v: %(T)s)
+{
+	xs[k].arr[i] = v;
+}
+fn set_as_value(xs: &[]S, k: usize, v: %(U)s)
+{
+	xs[k].value = v;
+}
+fn get_as(xs: &[2]S, k: usize, i: usize) -> %(T)s
+{
+	return: xs[k].arr[i]
+}
+fn get_as_value(xs: []S, k: usize) -> %(U)s
+{
+	return: xs[k].value
+}
+""" % dict(n=n, T=T, U=U, r=r_, c=c_)
+
+    def s_lit(sv):
+        return "S { arr: [%s], value: %s }" % (", ".join(lit(T, v) for v in sv["arr"]), lit(U, sv["value"]))
+
+    def new_s():
+        return {"arr": [val() for _ in range(n)], "value": val()}
+    body = []
+    # the root and its oracle
+    if shape == "A1":
+        root = [val() for _ in range(n)]
+        body.append("\tvar d: [%d]%s = [%s];" % (n, T, ", ".join(lit(T, v) for v in root)))
+    elif shape == "A2":
+        root = [[val() for _ in range(c_)] for _ in range(r_)]
+        body.append("\tvar d: [%d][%d]%s = [%s];" % (r_, c_, T, ", ".join("[" + ", ".join(lit(T, v) for v in row) + "]" for row in root)))
+    elif shape == "S1":
+        root = new_s()
+        body.append("\tvar d = %s;" % s_lit(root))
+    elif shape == "AS":
+        root = [new_s(), new_s()]
+        body.append("\tvar d: [2]S = [%s, %s];" % (s_lit(root[0]), s_lit(root[1])))
+    else:
+        root = {"inner": new_s(), "items": [new_s(), new_s()], "tail": val()}
+        body.append("\tvar d = O { inner: %s, items: [%s, %s], tail: %s };" % (
+            s_lit(root["inner"]), s_lit(root["items"][0]), s_lit(root["items"][1]), lit(T, root["tail"])))
+
+    def us(i):
+        return "%dusize" % i
+
+    # access to an S that lives at source path `sp` with oracle object `so`
+    # `addr`: may `&<path>` be written?  Not when the path is an element of an array VARIABLE (`&d[k]`): the typer reads that as
+    # "the pointer stored in d[k]" and rejects it for arrays of values (F51, probed separately in C01)
+    def write_s(sp, so, addr=True):
+        if rng.chance(1, 2):
+            i, v = rng.below(n), val()
+            so["arr"][i] = v
+            how = rng.pick(["direct", "setter", "elem-setter"] if addr else ["direct", "elem-setter"])
+            tags.append("w:s.arr:" + how)
+            if how == "direct":
+                body.append("\t%s.arr[%s] = %s;" % (sp, us(i), lit(T, v)))
+            elif how == "setter":
+                body.append("\tset_s_arr(&%s, %s, %s);" % (sp, us(i), lit(T, v)))
+            else:
+                body.append("\tset_elem(&%s.arr, %s, %s);" % (sp, us(i), lit(T, v)))
+        else:
+            v = val()
+            so["value"] = v
+            how = rng.pick(["direct", "setter"] if addr else ["direct"])
+            tags.append("w:s.value:" + how)
+            body.append("\t%s.value = %s;" % (sp, lit(U, v)) if how == "direct" else "\tset_s_value(&%s, %s);" % (sp, lit(U, v)))
+
+    def read_s(sp, so, w0, addr=True):
+        out = []
+        for i in range(n):
+            how = rng.pick(["direct", "getter", "view-getter", "elem-getter", "elem-view", "elem-sp"] if addr else
+                           ["direct", "view-getter", "elem-getter", "elem-view", "elem-sp"])
+            tags.append("r:s.arr:" + how)
+            e = {"direct": "%s.arr[%s]" % (sp, us(i)), "getter": "get_s_arr(&%s, %s)" % (sp, us(i)),
+                 "view-getter": "get_s_arr_view(%s, %s)" % (sp, us(i)), "elem-getter": "get_elem(&%s.arr, %s)" % (sp, us(i)),
+                 "elem-view": "get_elem_view(%s.arr, %s)" % (sp, us(i)), "elem-sp": "get_elem_sp(&%s.arr, %s)" % (sp, us(i))}[how]
+            out.append((e, T, so["arr"][i], w0 + i))
+        how = rng.pick(["direct", "getter"])
+        tags.append("r:s.value:" + how)
+        out.append(("%s.value" % sp if how == "direct" else "get_s_value(%s)" % sp, U, so["value"], w0 + n))
+        out.append(("|%s.arr|" % sp if (rng.chance(1, 2) or not addr) else "s_arr_len(&%s)" % sp, "usize", n, 1))
+        return out
+    for _ in range(3 + rng.below(5)):
+        if shape == "A1":
+            i, v = rng.below(n), val()
+            root[i] = v
+            how = rng.pick(["direct", "setter", "sp-setter"])
+            tags.append("w:a1:" + how)
+            body.append({"direct": "\td[%s] = %s;", "setter": "\tset_elem(&d, %s, %s);", "sp-setter": "\tset_elem_sp(&d, %s, %s);"}[how] % (us(i), lit(T, v)))
+        elif shape == "A2":
+            i, j, v = rng.below(r_), rng.below(c_), val()
+            root[i][j] = v
+            how = rng.pick(["direct", "setter"])
+            tags.append("w:a2:" + how)
+            body.append("\td[%s][%s] = %s;" % (us(i), us(j), lit(T, v)) if how == "direct" else "\tset_cell(&d, %s, %s, %s);" % (us(i), us(j), lit(T, v)))
+        elif shape == "S1":
+            write_s("d", root)
+        elif shape == "AS":
+            k = rng.below(2)
+            if rng.chance(1, 3):
+                i, v = rng.below(n), val()
+                root[k]["arr"][i] = v
+                tags.append("w:as:sp-setter")
+                body.append("\tset_as(&d, %s, %s, %s);" % (us(k), us(i), lit(T, v)))
+            elif rng.chance(1, 3):
+                v = val()
+                root[k]["value"] = v
+                tags.append("w:as.value:sp-setter")
+                body.append("\tset_as_value(&d, %s, %s);" % (us(k), lit(U, v)))
+            else:
+                write_s("d[%s]" % us(k), root[k], addr=False)
+        else:
+            k = rng.below(4)
+            if k == 0:
+                write_s("d.inner", root["inner"])
+            elif k < 3:
+                write_s("d.items[%s]" % us(k - 1), root["items"][k - 1])
+            else:
+                v = val()
+                root["tail"] = v
+                tags.append("w:o.tail")
+                body.append("\td.tail = %s;" % lit(T, v))
+    # reads
+    reads = []
+    if shape == "A1":
+        for i in range(n):
+            how = rng.pick(["direct", "getter", "view", "sp"])
+            tags.append("r:a1:" + how)
+            reads.append(({"direct": "d[%s]", "getter": "get_elem(&d, %s)", "view": "get_elem_view(d, %s)", "sp": "get_elem_sp(&d, %s)"}[how] % us(i), T, root[i], i + 1))
+        reads.append(("|d|", "usize", n, 1))
+    elif shape == "A2":
+        for i in range(r_):
+            for j in range(c_):
+                how = rng.pick(["direct", "getter"])
+                tags.append("r:a2:" + how)
+                reads.append(("d[%s][%s]" % (us(i), us(j)) if how == "direct" else "get_cell(&d, %s, %s)" % (us(i), us(j)), T, root[i][j], i * c_ + j + 1))
+            reads.append(("|d[%s]|" % us(i) if rng.chance(1, 2) else "row_len(&d, %s)" % us(i), "usize", c_, 1))
+        reads.append(("|d|" if rng.chance(1, 2) else "rows(&d)", "usize", r_, 1))
+    elif shape == "S1":
+        reads += read_s("d", root, 1)
+    elif shape == "AS":
+        for k in range(2):
+            if rng.chance(1, 2):
+                reads += read_s("d[%s]" % us(k), root[k], 1 + k * (n + 1), addr=False)
+            else:
+                tags.append("r:as:getter")
+                for i in range(n):
+                    reads.append(("get_as(&d, %s, %s)" % (us(k), us(i)), T, root[k]["arr"][i], 1 + k * (n + 1) + i))
+                reads.append(("get_as_value(d, %s)" % us(k), U, root[k]["value"], 1 + k * (n + 1) + n))
+        reads.append(("|d|", "usize", 2, 1))
+    else:
+        reads += read_s("d.inner", root["inner"], 1)
+        for k in range(2):
+            reads += read_s("d.items[%s]" % us(k), root["items"][k], 2 + (k + 1) * (n + 1))
+        reads.append(("d.tail", T, root["tail"], 3))
+        reads.append(("|d.items|", "usize", 2, 1))
+    body.append("\tvar acc: i64 = 0;")
+    expected = 0
+    for (e, t, v, w) in reads:
+        expected += v * w
+        body.append("\tacc = acc + %s * %di64;" % (e if t == "i64" else "(%s as i64)" % e, w))
+    body.append("\tprint!(acc);")
+    src = "\n".join(decls) + fns + "fn main()\n{\n" + "\n".join(body) + "\n}\n"
+    return src, str(expected), tags
